@@ -17,7 +17,7 @@ REPO = os.environ.get("GENJAX_REPO", "/repo")
 NATIVE = {
     "C01": [("gfi_battery", "generic")], "C02": [("gfi_battery", "generic"), ("static_dim_length",)], "C03": [("gfi_battery", "generic"), ("gfi_battery", "cond_update")],
     "C04": [("gfi_battery", "generic"), ("gfi_battery", "scan_regenerate"), ("gfi_battery", "cond_dist_branches")], "C05": [("gfi_battery", "generic"), ("gfi_battery", "condtr_args")],
-    "C08": [("gfi_battery", "vmap_int_axes")], "C09": [("mcmc_noise", "mala"), ("mcmc_noise", "hmc")], "C11": [("adev_native", "parallel"), ("adev_native", "geometric")],
+    "C08": [("gfi_battery", "vmap_int_axes")], "C09": [("mcmc_noise", "mala"), ("mcmc_noise", "hmc"), ("mcmc_offsupport",)], "C11": [("adev_native", "parallel"), ("adev_native", "geometric")],
     "C12": [("smc_resample",)], "C13": [("distributions_native",)], "C15": [("adev_native", "estimate")], "C16": [("filter_vs_spec",), ("merge_vs_spec",)],
     "C20": [("state_space_native", "hmm"), ("state_space_native", "kalman")],
     "C06": [("seed_sites",), ("seed_context",)], "C07": [("seed_sites",)],
@@ -26,8 +26,11 @@ NATIVE = {
 
 # property-level native batteries (full stack through the JAX compatibility shims, native/_compat.py)
 STACK = {"C01", "C02", "C03", "C04", "C05", "C08", "C16"}
+# native stand-ins that run in the QUICK tier too: behaviour outside the verifier's model of numbers (NaN log densities
+# outside a support: every comparison with NaN is false, so how an accept test is WRITTEN decides what happens)
+QUICK_NATIVE = {"C09": [("mcmc_offsupport",)]}
 # further public-interface batteries with an oracle independent of the implementation
-PUBLIC = {"C13": [("distributions_native",)], "C06": [("seed_sites",), ("seed_context",)], "C07": [("seed_sites",)], "C12": [("smc_resample",)], "C10": [("smc_resample",)], "C20": [("state_space_native", "kalman"), ("state_space_native", "hmm")]}
+PUBLIC = {"C13": [("distributions_native",)], "C09": [("mcmc_offsupport",)], "C06": [("seed_sites",), ("seed_context",)], "C07": [("seed_sites",)], "C12": [("smc_resample",)], "C10": [("smc_resample",)], "C20": [("state_space_native", "kalman"), ("state_space_native", "hmm")]}
 
 
 def property_level_native(pid):
